@@ -1211,9 +1211,8 @@ entry's protein list is exactly the union of the protein lists of the forms in `
 decoy / semi-enzymatic iff all of them are, its `missed_cleavages` / `position` are the least among theirs,
 every form in `pre` is represented, and ANY key-sorted arrangement of `pre` (whatever the unstable sort does
 inside a class of key-equal duplicates) gives this same database.
-(What is NOT a theorem: that the protein lists of the groups in `pre` are exactly the accessions of the
-per-protein digests — the fold of `group_digests`; that link is checked by the executable spec
-`Sage.C08.specVerdict`, which recomputes the sources per (protein, digest), on every implementation output.) -/
+(The link to the FASTA records — group protein lists = accessions of the per-protein digests — is
+`db_canonical_sources` in `Props/C08Sources.lean`.) -/
 theorem db_canonical (cfg : Cfg Rat) (t : List (C05.Seq × C05.Seq)) (db : List (DbPep Rat))
     (h : buildDb cfg t = some db) :
     ∃ gs, groupDigests (fastaDigest cfg.par cfg.tag cfg.gen t) = some gs ∧
